@@ -3,7 +3,7 @@ import itertools
 import os
 import shutil
 
-from .. import core, dgen, gen, hist
+from .. import core, dgen, gen, hist, ynodes
 from ..core import F, X, veq
 from . import c03
 
@@ -13,12 +13,15 @@ ASSUMPTIONS = [
     "theorem: normalize(arrives f v) = v for every format f (Model.Normalize); the table 'arrives' (which Go type each decoder produces) is an "
     "assumption about encoding/json, yaml.v3 and go-toml, validated on every run by the typed dump of Parser.Documents()",
     "files are written by the harness's own emitters (block/flow YAML with anchors and merge keys, TOML with tables and dotted keys), not by bkl",
+    "theorems C04_yaml_*: about Model.Yaml.ytranslate over node trees; that yaml.v3 builds the node tree vlib/ynodes.py says a text denotes is "
+    "checked per run by loading the text with bkl (typed dump) and translating the tree with the model; PyYAML referees a disagreement",
 ]
 RULE = ("1-3 layers x 1-2 documents of map-rooted trees over printable strings, 64-bit integers (incl. +-2^31, 2^53+1, +-(2^63-1)), doubles "
         "(0.1, 1e-07, 1e+21, 5e-324, max), bools, nested maps/lists; upper layers compare numbers ($match / $delete patterns, same-value "
         "overrides, $repeat counts); every assignment of JSON/YAML/TOML to the layers (3^n) must give the same status and bytes; the typed dump "
         "after loading must contain only canonical Go types and equal the generating trees; YAML anchors/merge keys and TOML tables/dotted keys "
-        "against their expanded form; non-trivial = a number is compared or carried across formats; distinct by hash")
+        "against their expanded form; generated yaml.v3 node trees (1-3 anchored nodes, aliases, merge keys: alias / list of aliases / inline map / rejected "
+        "scalar sources, at any position among the entries; scalars of every tag, odd keys) loaded vs Model.Yaml; non-trivial = a number is compared or carried across formats; distinct by hash")
 
 NUMS = [0, 1, 2, -1, 7, 2147483647, 2147483648, -2147483648, -2147483649, 9007199254740993, 9223372036854775807, -9223372036854775807,
         F("0.1"), F("1e-07"), F("1e+21"), F("5e-324"), F("1.7976931348623157e+308"), F("0.5"), F("-2.25"), F("123456.789"),
@@ -240,8 +243,74 @@ def run(ctx):
             ctx.violations.append({"name": "ymerge-" + core.vhash(text), "property": "C04", "kind": "failing-input",
                                    "why": "YAML with anchors/merge keys does not evaluate to its expanded form: rc=%d %s got %s want %s" % (rc, err[-150:], hist.short(got), hist.short([tree])),
                                    "yaml": text, "class": "c04-format-dependence"})
-    return {"evaluations": len(jobs) * 2 + len(ycases), "distinct_nontrivial": nt, "rule": RULE, "samples": [core.to_jsonable(c) for c in contents[:1]],
+    ny = ynode_pass(ctx, rng.fork("ynodes"), 150 if ctx.tier == "quick" else 4000, dist)
+    return {"evaluations": len(jobs) * 2 + len(ycases) + ny, "distinct_nontrivial": nt, "rule": RULE, "samples": [core.to_jsonable(c) for c in contents[:1]],
             "distribution": dist, "disagreements_checked": len(ctx.violations)}
+
+
+def pyyaml_view(text):
+    """what an independent YAML implementation (PyYAML, with timestamps and a bare << left as strings) makes of the
+    text; None when it cannot say"""
+    try:
+        import yaml
+
+        class L(yaml.SafeLoader):
+            pass
+        L.yaml_implicit_resolvers = {k: [(t, r) for t, r in v if t != "tag:yaml.org,2002:timestamp"] for k, v in yaml.SafeLoader.yaml_implicit_resolvers.items()}
+        L.add_constructor("tag:yaml.org,2002:merge", lambda loader, node: node.value)
+
+        def conv(v):
+            if isinstance(v, bool) or v is None or isinstance(v, str):
+                return v
+            if isinstance(v, int):
+                return v
+            if isinstance(v, float):
+                return F(core.go_g(v))
+            if isinstance(v, list):
+                return [conv(x) for x in v]
+            if isinstance(v, dict):
+                return {("null" if k is None else str(k).lower() if isinstance(k, bool) else str(k)): conv(x) for k, x in v.items()}
+            raise ValueError
+        return conv(yaml.load(text, Loader=L))
+    except Exception:
+        return None
+
+
+def ynode_pass(ctx, rng, n, dist):
+    """yaml.go's node translation against Model/Yaml.v: generated node trees (anchors, aliases, merge keys in every
+    position and form, every scalar tag, odd keys, rejected merge sources) rendered to YAML text by vlib/ynodes.py;
+    bkl loads the text, the model translates the tree"""
+    d = os.path.join(ctx.work, "yn")
+    os.makedirs(d, exist_ok=True)
+    cases = []
+    for i in range(n):
+        tree, text = ynodes.document(rng.fork("d%d" % i), bad=(i % 5 == 4))
+        fn = "yn%d.yaml" % i
+        open(os.path.join(d, fn), "w").write(text)
+        cases.append((tree, text, fn))
+    impl = ctx.impl([["loadfiles", d, [fn]] for _, _, fn in cases])
+    mo = ctx.model([["ynode", tree] for tree, _, _ in cases])
+    dist["ynode_cases"] = n
+    dist["ynode_rejected"] = sum(1 for m in mo if m[0] == "err")
+    dist["ynode_with_merge_key"] = sum(1 for _, text, _ in cases if "<<:" in text)
+    for (tree, text, fn), g, m in zip(cases, impl, mo):
+        if m[0] == "err" and m[1] == "oracle":
+            continue
+        why = None
+        if (g[0] == "ok") != (m[0] == "ok"):
+            why = "bkl %s the YAML text but the model %s its node tree" % ("loads" if g[0] == "ok" else "rejects (%s)" % (g[1:],), "translates" if m[0] == "ok" else "rejects (%s)" % m[1])
+        elif g[0] == "ok" and not veq(g[1], [m[1]]):
+            why = "bkl loads %s, the node tree denotes %s" % (hist.short(g[1]), hist.short([m[1]]))
+        if why and len(ctx.violations) < 5:
+            # the model and bkl differ: does an independent YAML implementation also differ from bkl on this text?
+            ref = pyyaml_view(text)
+            confirmed = ref is not None and g[0] == "ok" and not veq(g[1], [ref]) and "~:" not in text
+            ctx.violations.append({"name": "ynode-" + core.vhash(text), "property": "C04",
+                                   "kind": "failing-input" if confirmed else "no-failing-input-found",
+                                   "theorem": "C04_yaml_merge_list / C04_yaml_plain_nodes (Properties/C04.v) are about Model.Yaml.ytranslate; correspondence of yaml.go with it broke",
+                                   "why": why + ("; PyYAML reads %s" % hist.short([ref]) if confirmed else "; no independent confirmation that the expanded form is wrong"),
+                                   "yaml": text, "class": "c04-yaml-node-translation"})
+    return n
 
 
 def replay(ctx, payload):
